@@ -564,6 +564,8 @@ func tokRawOK(prevStart, prevEnd, n int, baseOffset int64, num uint64) bool {
 //@ ensures alias: sameOrFresh(result0, dst)
 //@ ensures length: len(result0) >= len(dst)
 //@ ensures prefix: vForall(0, len(dst), func(k int) bool { return result0[k] == old(dst[k]) })
+//@ ensures float32-precision: t.raw == nil && t.str[0] == 'F' ==> jsonwire.FloatText(result0, len(dst), 32)
+//@ ensures float64-precision: t.raw == nil && t.str[0] == 'f' ==> jsonwire.FloatText(result0, len(dst), 64)
 
 // WriteToken commit protocol: everything is built in a local copy of the buffer
 // header and stored back only after the state machine accepted the token. So:
